@@ -306,6 +306,7 @@ type c37Cell struct {
 	SrvBits int    `json:"server_key_bits"`
 	CliBits int    `json:"client_key_bits"`
 	Token   string `json:"token"`
+	ViaNone bool   `json:"session_over_the_None_endpoint,omitempty"` // the server also enables None; the session runs over that endpoint
 	Step    string `json:"failed_step,omitempty"`
 	Err     string `json:"error,omitempty"`
 }
@@ -327,6 +328,23 @@ func c37Cells(quick bool) []c37Cell {
 			}
 		}
 	}
+	// the None endpoint of a server that also enables a secured policy and user names: the token is protected with
+	// the secured policy although the channel is not
+	for _, p := range refpeer.Policies {
+		cells = append(cells, c37Cell{Policy: p.URI, Mode: 3, SrvBits: 2048, CliBits: 2048, Token: "username", ViaNone: true})
+		if quick {
+			break
+		}
+	}
+	if quick {
+		// key sizes on different sides of the 2048 bit boundary (the complete matrix is the thorough tier)
+		for _, p := range refpeer.Policies {
+			if sizes := allowedSizes(p); sizes[len(sizes)-1] > 2048 {
+				cells = append(cells, c37Cell{Policy: p.URI, Mode: 3, SrvBits: 4096, CliBits: 2048, Token: "anonymous"},
+					c37Cell{Policy: p.URI, Mode: 2, SrvBits: 2048, CliBits: 3072, Token: "anonymous"})
+			}
+		}
+	}
 	for i := range cells {
 		cells[i].Index = int64(i)
 	}
@@ -341,7 +359,14 @@ func c37One(c *fw.Ctx, cell c37Cell) {
 		c.Violation("c37:"+step+":"+secKey{cell.Policy, cell.Mode}.String()+":"+cell.Token, fmt.Sprintf("cell %s: %s failed: %v", name, step, err), cell)
 	}
 	// the server enables only the configuration under test, with a key inside that policy's limits
-	rs, err := startRealServer(srvCfg{Sec: []secPair{{cell.Policy, cell.Mode}}, KeyBits: cell.SrvBits, KeyName: "b", Vars: 1, UserName: cell.Token == "username"})
+	sec := []secPair{{cell.Policy, cell.Mode}}
+	connPolicy, connMode := cell.Policy, cell.Mode
+	if cell.ViaNone {
+		sec = append([]secPair{{refpeer.URINone, 1}}, sec...)
+		connPolicy, connMode = refpeer.URINone, 1
+		name += "/via-None-endpoint"
+	}
+	rs, err := startRealServer(srvCfg{Sec: sec, KeyBits: cell.SrvBits, KeyName: "b", Vars: 1, UserName: cell.Token == "username"})
 	if err != nil {
 		c.Inconclusive("server start: " + err.Error())
 		return
@@ -356,12 +381,12 @@ func c37One(c *fw.Ctx, cell c37Cell) {
 	c.Class("token:"+cell.Token, 1)
 
 	var secOpts []opcua.Option
-	if cell.Policy != refpeer.URINone {
+	if connPolicy != refpeer.URINone {
 		secOpts = []opcua.Option{opcua.PrivateKey(ck.Key), opcua.Certificate(ck.Cert)}
 	}
 	// discovery over a channel with the settings the server enabled
-	dopts := append([]opcua.Option{opcua.SecurityPolicy(cell.Policy), opcua.SecurityMode(ua.MessageSecurityMode(cell.Mode)), opcua.RequestTimeout(15 * time.Second)}, secOpts...)
-	if cell.Policy != refpeer.URINone {
+	dopts := append([]opcua.Option{opcua.SecurityPolicy(connPolicy), opcua.SecurityMode(ua.MessageSecurityMode(connMode)), opcua.RequestTimeout(15 * time.Second)}, secOpts...)
+	if connPolicy != refpeer.URINone {
 		dopts = append(dopts, opcua.RemoteCertificate(sk.Cert))
 	}
 	eps, err := opcua.GetEndpoints(ctx, rs.Endpoint, dopts...)
@@ -371,7 +396,7 @@ func c37One(c *fw.Ctx, cell c37Cell) {
 	}
 	var ep *ua.EndpointDescription
 	for _, e := range eps {
-		if e.SecurityPolicyURI == cell.Policy && int(e.SecurityMode) == cell.Mode {
+		if e.SecurityPolicyURI == connPolicy && int(e.SecurityMode) == connMode {
 			ep = e
 		}
 	}
@@ -491,10 +516,10 @@ func init() {
 	fw.Register("C37", fw.Spec{
 		Plan: func(tier string) fw.Plan {
 			p := fw.Plan{Batches: 7, TimeoutS: 600, MinNontrivial: 20, Level: "exploration",
-				Rule:        "one cell = (policy, mode, server key size, client key size, user token type): a real server enabling only that configuration with a key inside the policy's limits; a real client discovers the endpoints over a channel with those settings, selects the advertised endpoint (SecurityFromEndpoint), connects, activates with the token, writes and reads back a scalar and a 150 kB ByteString (several chunks each way); quick: key size 2048 only (21 cells); thorough: the complete matrix of key sizes {1024,2048} / {2048,3072,4096} (141 cells); distinct = cells",
+				Rule:        "one cell = (policy, mode, server key size, client key size, user token type): a real server enabling only that configuration with a key inside the policy's limits; a real client discovers the endpoints over a channel with those settings, selects the advertised endpoint (SecurityFromEndpoint), connects, activates with the token, writes and reads back a scalar and a 150 kB ByteString (several chunks each way); quick: key size 2048 plus, per policy that allows them, two cells with keys on different sides of 2048 bits (28 cells); thorough: the complete matrix of key sizes {1024,2048} / {2048,3072,4096}; both tiers also run a user-name session over the None endpoint of a server that enables None next to a secured policy (the token is protected with the secured policy); distinct = cells",
 				Assumptions: []string{"committed self-signed test certificates; the server does not validate user credentials"}}
 			if tier == "thorough" {
-				p.Batches, p.TimeoutS, p.MinNontrivial, p.Exhaustive = 16, 1800, 141, true
+				p.Batches, p.TimeoutS, p.MinNontrivial, p.Exhaustive = 16, 1800, 146, true
 			}
 			return p
 		},
